@@ -17,12 +17,20 @@ template <class F> void run_history(Src &s, GridState &st, const std::vector<int
             static const std::vector<int> with_t = {OP_LOAD_CONSTR, OP_LOAD_CONSTR, OP_LOAD_CONSTR, OP_CANDIDATES, OP_CANDIDATES, OP_FINISH_CONSTR};
             op = decode_op(s, st.spec, (st.candidates.empty() && st.target.empty()) ? without_c : (st.candidates.empty() ? with_t : with_c));
         } else op = decode_op(s, st.spec, kinds);
+        // family-aware remapping so that bytes are not wasted on ops the family does not have
+        if ((op.kind == OP_REF_ANISO || op.kind == OP_UPDATE) && (st.spec.family == F_LOCALP || st.spec.family == F_WAVE) && has(OP_REF_SURP)) op.kind = OP_REF_SURP;
+        else if (op.kind == OP_REF_SURP && !st.surplus_capable() && st.aniso_capable() && has(OP_REF_ANISO)) { op.kind = OP_REF_ANISO; if (is_tensor_type(op.type)) op.type = type_level; if (op.min_growth < 1) op.min_growth = 1; }
         if (apply_op(st, op)) {
             after(op);
             // the usual adaptive loop is refine -> load: follow a successful proposal by a load half of the time so that multi-round adaptive
             // grids (with gaps in the hierarchy) are reached with few bytes
             if ((op.kind == OP_REF_SURP || op.kind == OP_REF_ANISO || op.kind == OP_UPDATE) && st.g.getNumNeeded() > 0 && has(OP_LOAD) && s.chance(1, 2)) {
-                Op ld; ld.kind = OP_LOAD; if (apply_op(st, ld)) after(ld); }
+                Op ld; ld.kind = OP_LOAD; if (apply_op(st, ld)) after(ld);
+                // several selective rounds in a row (local families): the standard adaptive loop, which is what produces hierarchies with gaps
+                if (op.kind == OP_REF_SURP && (st.spec.family == F_LOCALP || st.spec.family == F_WAVE) && s.chance(1, 2)) {
+                    int rounds = 1 + s.pick(4); Op again = op; again.variant |= 1; again.limits.clear();
+                    for (int r = 0; r < rounds && st.g.getNumLoaded() < st.cap; r++) { if (!apply_op(st, again)) break; after(again); if (st.g.getNumNeeded() == 0) break; if (apply_op(st, ld)) after(ld); }
+                } }
         }
     }
 }
